@@ -2,7 +2,7 @@
 
 The fault space of one design is finite: a pattern is the outcome sequence of its
 attempts, each in {ok, Timeout, Runtime, other}, ending at the first ok/other or
-after five failures – 156 patterns.  All of them are enumerated (serial and with
+after five failures – 187 patterns (four kinds of non-transient exception, one of them an OSError that is not a time-out).  All of them are enumerated (serial and with
 two simulated workers); batches and whole runs sample one pattern per design.
 """
 import itertools
@@ -12,9 +12,9 @@ from ..decisions import Decisions
 
 PID = 'C06'
 LEVEL = 'fault_enumeration'
-RULE = ('fault space of one design = 156 failure patterns (0-4 transient failures of 2 kinds followed by ok or one of 3 '
+RULE = ('fault space of one design = 187 failure patterns (0-4 transient failures of 2 kinds followed by ok or one of 4 '
         'non-transient exception kinds, or 5 transient failures); every pattern is enumerated for a single-design batch '
-        'serially and with 2 simulated workers (312 fixed cases, reported in enumerated_cases / enumeration_complete); '
+        'serially and with 2 simulated workers (374 fixed cases, reported in enumerated_cases / enumeration_complete); '
         'further cases sample one pattern per design for batches of 2-8 designs, 1-4 workers, and whole NSGA-II / '
         'eps-MOEA / swarm runs with seeded failure plans.  Non-trivial = at least one planned failure fired and the '
         'oracle was evaluated on it; distinct = hash of (family, workers, per-design pattern tuple, schedule signature).')
@@ -34,7 +34,7 @@ PROBES_EXPECTED = ['exactly_four_serial', 'exactly_four_parallel', 'exactly_five
                    'other_serial', 'other_parallel', 'run_family', 'abort_in_run', 'coarse_precision_resample', 'marker_after_reroll']
 
 T = ('timeout', 'runtime')
-OTHER = ('value', 'key', 'zerodiv')
+OTHER = ('value', 'key', 'zerodiv', 'oserror')
 
 
 def all_patterns():
@@ -49,7 +49,7 @@ def all_patterns():
 
 
 PATTERNS = all_patterns()
-assert len(PATTERNS) == 156
+assert len(PATTERNS) == 187
 
 
 def fixed_cases(tier):
@@ -120,7 +120,7 @@ def _pick_pattern(D, key):
     if c == 3:
         return tuple(T[D.dec('work', key + ('t', i), 2)] for i in range(5))
     k = D.dec('work', key + ('k',), 5)
-    return tuple(T[D.dec('work', key + ('t', i), 2)] for i in range(k)) + (OTHER[D.dec('work', key + ('o',), 3)],)
+    return tuple(T[D.dec('work', key + ('t', i), 2)] for i in range(k)) + (OTHER[D.dec('work', key + ('o',), len(OTHER))],)
 
 
 def _batch(D):
